@@ -171,6 +171,7 @@ func runCheck(repo, verif, prop, tier string, seed int) int {
 	var bindingErrs []string
 	usedContracts := map[string]bool{}
 	supportFuncs := map[string]bool{}
+	claimed := claimedProps(verif)
 	// obligations of every in-repo function those depend on (callees with contracts) are checked too
 	inSet := map[string]bool{}
 	for _, k := range keys {
@@ -188,7 +189,9 @@ func runCheck(repo, verif, prop, tier string, seed int) int {
 		for _, o := range c.obls {
 			// obligations of this property: tagged with it, or untagged support obligations; for functions pulled in
 			// as dependencies every obligation counts (the caller relies on their whole contract)
-			if len(o.Tags) == 0 || hasTag(o.Tags, prop) || supportFuncs[key] {
+			// ... except those that belong to another claimed property only: they are decided (and reported) by that
+			// property's check, so that a change breaking one property does not raise alarms under the others
+			if len(o.Tags) == 0 || hasTag(o.Tags, prop) || (supportFuncs[key] && !allClaimedElsewhere(o.Tags, claimed)) {
 				all = append(all, o)
 				fr.Obligations++
 			}
@@ -559,4 +562,16 @@ func (e *Engine) fieldWrittenOutside(fv *types.Var, owner types.Type, allowed st
 		}
 	}
 	return pos, what
+}
+
+func allClaimedElsewhere(tags []string, claimed map[string]bool) bool {
+	for _, t := range tags {
+		if t == "WIP" {
+			continue
+		}
+		if !claimed[t] {
+			return false
+		}
+	}
+	return true
 }
